@@ -16,6 +16,7 @@ package agent
 import (
 	"bytes"
 	"encoding/binary"
+	"io"
 	"net"
 
 	"github.com/honeytrap/protocol"
@@ -31,6 +32,22 @@ type Decoder struct {
 	*protocol.Decoder
 }
 
+// ReadUint16 reads both bytes of the value, also when they are not buffered
+// together.
+func (d *Decoder) ReadUint16() int {
+	if d.LastError != nil {
+		return 0
+	}
+
+	buffer := [2]byte{}
+	if _, err := io.ReadFull(d, buffer[:]); err != nil {
+		d.LastError = err
+		return 0
+	}
+
+	return int(binary.LittleEndian.Uint16(buffer[:]))
+}
+
 func (d *Decoder) ReadData() []byte {
 	if d.LastError != nil {
 		return []byte{}
@@ -39,7 +56,7 @@ func (d *Decoder) ReadData() []byte {
 	l := d.ReadUint16()
 
 	buffer := make([]byte, l)
-	if _, err := d.Read(buffer[:]); err != nil {
+	if _, err := io.ReadFull(d, buffer[:]); err != nil {
 		d.LastError = err
 		return []byte{}
 	}
@@ -55,7 +72,7 @@ func (d *Decoder) ReadString() string {
 	l := d.ReadUint16()
 
 	buffer := make([]byte, l)
-	if _, err := d.Read(buffer[:]); err != nil {
+	if _, err := io.ReadFull(d, buffer[:]); err != nil {
 		d.LastError = err
 		return ""
 	}
